@@ -315,6 +315,13 @@ class Assembler:
                             )
                         if isinstance(op, Imm20) and isinstance(op.value, int):
                             op.extra_hi = (op.value >> 16) & 0xFF
+                        if (
+                            mnemonic in {"CALL", "JP", "JPZ", "JPNZ", "JPC", "JPNC"}
+                            and isinstance(op, Imm16)
+                            and isinstance(op.value, int)
+                        ):
+                            # Page-local targets are range-checked and masked in pass two.
+                            op.value &= 0xFFFF
 
                     encoder = Encoder()
                     try:
